@@ -307,7 +307,7 @@ void dnse_settle(void)
 			}
 		if (!busy) break;
 		if (spin == 0) { t0 = now_real(); dnse_spins++; }
-		else if (now_real() - t0 > 3.0) { mc_fail("harness:net-settle-timeout", "loopback TCP traffic still in flight after 3 s"); break; }
+		else if (now_real() - t0 > 15.0) { mc_fail("harness:net-settle-timeout", "loopback TCP traffic still in flight after 15 s"); break; }
 		tiny_sleep();
 	}
 }
@@ -323,7 +323,7 @@ static void wait_client_sees_close(int peer_port)
 		int st = tcp_state(fd);
 		if (st != TCP_ESTABLISHED) return;
 		if (spin == 0) { t0 = now_real(); dnse_spins++; }
-		else if (now_real() - t0 > 3.0) { mc_fail("harness:net-settle-timeout", "close not seen by client after 3 s"); return; }
+		else if (now_real() - t0 > 15.0) { mc_fail("harness:net-settle-timeout", "close not seen by client after 15 s"); return; }
 		tiny_sleep();
 	}
 }
@@ -335,7 +335,7 @@ void dnse_wait_readable(int fd)
 	if (__real_poll(&p, 1, 0) > 0) return;
 	dnse_spins++;
 	p.revents = 0;
-	if (__real_poll(&p, 1, 3000) <= 0) mc_fail("harness:udp-reply-not-delivered", "fd %d not readable 3 s after a reply was sent", fd);
+	if (__real_poll(&p, 1, 15000) <= 0) mc_fail("harness:udp-reply-not-delivered", "fd %d not readable 15 s after a reply was sent", fd);
 }
 
 /* ------------------------------------------------------------------ collect / reply */
@@ -363,7 +363,7 @@ int dnse_ns_collect(struct dnse_msg *out, int max)
 			while (cnt < max && udp_take(i, &out[cnt])) cnt++;
 			if (n->rcvd >= n->sent || cnt >= max) break;
 			if (!waited) { waited = 1; t0 = now_real(); dnse_spins++; }
-			else if (now_real() - t0 > 3.0) { mc_fail("harness:udp-lost", "ns%d: %ld sent, %ld received", i, n->sent, n->rcvd); n->rcvd = n->sent; break; }
+			else if (now_real() - t0 > 15.0) { mc_fail("harness:udp-lost", "ns%d: %ld sent, %ld received", i, n->sent, n->rcvd); n->rcvd = n->sent; break; }
 			struct pollfd p = { n->udp, POLLIN, 0 };
 			__real_poll(&p, 1, 100);
 		}
